@@ -101,3 +101,10 @@ def structural(name, props, fn, anchor=''):
 
 def bounded(name, props, fn, quick=True):
     BOUNDED.append(dict(name=name, props=list(props), fn=fn, quick=quick))
+
+
+FPSPECS = []        # binary64 obligations on straight-line elementwise code (pyvc/fpkernel.py)
+
+
+def fpspec(**kw):
+    FPSPECS.append(kw)
